@@ -171,6 +171,13 @@ func (s *LinearState) Add(ctx *Context, id string, x Map) (string, error) {
 		return id, err
 	}
 
+	// Hold the lock while we update the store and then memory.
+	// Otherwise a concurrent Add or Rem of the same id can run
+	// between the two updates and leave memory and storage
+	// disagreeing for good.
+	s.slock(ctx, false)
+	defer s.sunlock(ctx, false)
+
 	pair := &Pair{[]byte(id), bs}
 	if err = s.store.Add(ctx, s.Name, pair); err != nil {
 		return id, err
@@ -178,14 +185,15 @@ func (s *LinearState) Add(ctx *Context, id string, x Map) (string, error) {
 	verifhook.Point("state.add.gap")
 
 	if s.addHook != nil {
+		// The hook runs while we hold the lock.
+		s.withPrivilege(ctx)
+		defer s.withoutPrivilege(ctx)
 		if err := s.addHook(ctx, s, id, m, ctx.GetLoc().loading); err != nil {
 			Log(ERROR, ctx, "LinearState.Add", "state", s.Name, "error", err, "when", "addHook", "id", id)
 			return "", err
 		}
 	}
 
-	// Maybe protect the store (above), too.
-	s.slock(ctx, false)
 	if _, isRule := m["rule"]; isRule {
 		if _, have := s.Facts[id]; have {
 			// Hope we're really replacing a rule.
@@ -195,7 +203,6 @@ func (s *LinearState) Add(ctx *Context, id string, x Map) (string, error) {
 	s.Facts[id] = RawFact{m, bs}
 	// Whatever was cached for this id is stale now.
 	s.uncacheRule(id)
-	s.sunlock(ctx, false)
 
 	return id, nil
 }
@@ -219,6 +226,11 @@ func (s *LinearState) Rem(ctx *Context, id string) (bool, error) {
 
 func (s *LinearState) rem(ctx *Context, id string, lock bool) (bool, error) {
 	Log(DEBUG, ctx, "LinearState.rem", "id", id)
+	// The lock protects the store, too.  See LinearState.Add.
+	if lock {
+		s.slock(ctx, false)
+		defer s.sunlock(ctx, false)
+	}
 	_, err := s.store.Remove(ctx, s.Name, []byte(id))
 	// ToDo: Consider what's returned.
 	if err != nil {
@@ -226,11 +238,6 @@ func (s *LinearState) rem(ctx *Context, id string, lock bool) (bool, error) {
 		return false, err
 	}
 	verifhook.Point("state.rem.gap")
-	// Maybe protect the store (above), too.
-	if lock {
-		s.slock(ctx, false)
-		defer s.sunlock(ctx, false)
-	}
 	s.uncacheRule(id)
 	_, had := s.Facts[id]
 	if had {
